@@ -96,3 +96,104 @@ class BlockUploadServer:
 
     def abort(self, abort_code=0x08000000):
         rt.emit("abort", abort_code)
+
+
+class BlockDownloadServer:
+    """conformant block-download server without loss, as the block-download stream sees it: announces a block size
+    of its choosing (1..127) in the initiate response and in every acknowledgement, accepts the segments of a sub-block
+    in sequence, acknowledges a complete sub-block (or the one ended by the last segment) with the number of the last
+    segment, and on the end frame checks the count of unused bytes, the declared size and (when negotiated) the CRC
+    before committing the value."""
+    crc_cls = CrcXmodem
+    RESPONSE_TIMEOUT = 0.3
+
+    def __init__(self, index, subindex, buf, server_crc):
+        self.index = index
+        self.subindex = subindex
+        self.buf = buf
+        self.server_crc = server_crc
+        self.use_crc = False
+        self.declared = None
+        self.seq = 0
+        self.blksize = 0
+        self.phase = 0            # 0 idle, 1 receiving segments, 2 acknowledgement due, 3 end frame expected, 4 done
+        self.last_len = 0
+        self.finished = False
+        self.committed = None
+        self.rx_cobid = 0x601
+
+    def illegal(self, why):
+        rt.emit("illegal", why)
+        raise SdoAbortedError(0x08000000)
+
+    def request_response(self, request):
+        if len(request) != 8:
+            self.illegal("frame not 8 bytes")
+        cmd = request[0]
+        if self.phase == 0:
+            if (cmd & 0xF9) != 0xC0 or (request[1] | (request[2] << 8)) != self.index or request[3] != self.subindex:
+                self.illegal("initiate block download: wrong command or multiplexer")
+            if cmd & 2:
+                self.declared = request[4] | (request[5] << 8) | (request[6] << 16) | (request[7] << 24)
+            elif request[4] != 0 or request[5] != 0 or request[6] != 0 or request[7] != 0:
+                self.illegal("size bytes not zero although no size is indicated")
+            self.use_crc = self.server_crc and (cmd & 4) != 0
+            self.blksize = rt.choose_int("blksize", 1, 127)
+            self.phase = 1
+            self.seq = 0
+            return bytes([0xA0 | (4 if self.server_crc else 0), request[1], request[2], request[3], self.blksize, 0, 0, 0])
+        if self.phase == 3:
+            if (cmd & 0xE3) != 0xC1:
+                self.illegal("expected the end frame C1")
+            n = (cmd >> 2) & 7
+            valid = 7 - n
+            k = valid
+            while k < 7:
+                if self.pending_last[k] != 0:
+                    self.illegal("unused bytes of the last segment are not zero")
+                k += 1
+            self.buf.extend(self.pending_last[0:valid])
+            if self.declared is not None and self.declared != len(self.buf):
+                self.illegal("declared size differs from the bytes received")
+            if self.use_crc:
+                if (request[1] | (request[2] << 8)) != rt.crc_of(self.buf):
+                    self.illegal("CRC rejected")
+            if request[3] != 0 or request[4] != 0 or request[5] != 0 or request[6] != 0 or request[7] != 0:
+                self.illegal("end frame padding not zero")
+            self.committed = bytes(self.buf)
+            self.phase = 4
+            rt.emit("committed")
+            return bytes([0xA1, 0, 0, 0, 0, 0, 0, 0])
+        self.illegal("request in the wrong protocol step")
+
+    def send_request(self, request):
+        rt.emit("client-frame", rt.snapshot(request))
+        if len(request) != 8 or self.phase != 1:
+            self.illegal("segment in the wrong protocol step / not 8 bytes")
+        cmd = request[0]
+        seq = cmd & 0x7F
+        last = (cmd & 0x80) != 0
+        if seq != self.seq + 1:
+            self.illegal("sequence number is not the successor of the previous one")
+        self.seq = seq
+        if last:
+            # the client tells the number of valid bytes only in the end frame: keep all seven for now
+            self.pending_last = bytes(request[1:8])
+            self.finished = True
+            self.phase = 2
+        else:
+            self.buf.extend(request[1:8])
+            if self.seq >= self.blksize:
+                self.phase = 2
+
+    def read_response(self):
+        if self.phase != 2:
+            self.illegal("the client waits for an acknowledgement that is not due")
+        ack = self.seq
+        self.seq = 0
+        self.blksize = rt.choose_int("blksize", 1, 127)
+        self.phase = 3 if self.finished else 1
+        return bytes([0xA2, ack, self.blksize, 0, 0, 0, 0, 0])
+
+    def abort(self, abort_code=0x08000000):
+        rt.emit("abort", abort_code)
